@@ -51,7 +51,9 @@ def install(rec_holder):
     orig_add_row = rich.table.Table.add_row
 
     def add_row(self, *a, **kw):
-        rec_holder["rec"].rows.append(tuple(str(x) for x in a))
+        if a and all(isinstance(x, str) for x in a):
+            # the listing's rows are plain strings; rich's own log handler also builds tables (of Text objects) for log lines
+            rec_holder["rec"].rows.append(tuple(a))
         return orig_add_row(self, *a, **kw)
     rich.table.Table.add_row = add_row
     # the recorders sit on rich's own entry points, so that it does not matter through which name the CLI reaches them
@@ -194,6 +196,13 @@ def _run(ctx):
         # "-q" followed by a run without it occur in one process
         flags = flag_cycle[ctx.counters["evaluations"] % len(flag_cycle)]
         ctx.count("flags." + (flags[0] if flags else "none"))
+        # every invocation starts from an unconfigured logging system, like a fresh process (logging.basicConfig, which the group
+        # calls, does nothing once the root logger has handlers): the global flags then really take effect each time
+        import logging as _logging
+        _root = _logging.getLogger()
+        for h_ in list(_root.handlers):
+            _root.removeHandler(h_)
+        _root.setLevel(_logging.WARNING)
         res = monitored(runner.invoke, cli.spp, flags + full)
         if holder["rec"].suppressed:
             ctx.violation(f"output-suppressed/{args[0]}/flags={flags[0] if flags else 'none'}",
